@@ -148,7 +148,8 @@ func (m *Engine) PrintBinds(keymap string, inputrcFormat bool) {
 
 	for _, command := range commands {
 		for key, bind := range binds {
-			if bind.Action != command {
+			// A macro is not a command, even when its text is the name of one.
+			if bind.Macro || bind.Action != command {
 				continue
 			}
 
